@@ -37,6 +37,20 @@ Oracle (from the property statement):
                 subject gets its sealed / accessor-writable flag flipped after
                 construction (`flagflip:` ids, see _flip_cases).
 
+  functors      what a functor does when it is called is part of "equal, same
+                behavioural flags": the argument sets (specified / bound /
+                default / non-default, as sets of the clone's own) and the
+                construction flags override_args / ignore_extra_args are not
+                seen by pg.eq, so they are compared through calls -- the clone
+                and the original, given the same missing / surplus / overriding /
+                call-time-flag arguments, have the same outcome; cloning leaves
+                the original's outcomes as they were; clone(override=argument)
+                behaves like the original with the same rebind; a later change
+                of either side (rebind, unbind, delattr, assignment, call-time
+                override) is not visible through the other and a clone changed
+                the way the original is changed still behaves like it
+                (driver 3, `functor...` ids).
+
 case_id: `clone/<check>/<node type>` for fidelity (clone depth in the key),
 `<depth>/<sharing check>/<type>`, `alias:<alias>/<check>/<type>` for a check
 that fails for an alias but holds for the clone of the same depth,
@@ -46,9 +60,19 @@ on the other side>`,
 <check>/<type>` for a check that fails only after a flag of a node was flipped
 after construction (position of the flipped node / relation of its new flag to
 the flag of its parent in the id).
+Driver 3: `functor/<depth>/<check>` with check = `arg-sets.<set>` |
+`arg-sets.shared-set-object` | `call.<class of call: no-arguments,
+bind-unbound-argument, override-bound-argument, surplus-arguments,
+call-time-flags>` | `modifies-original.<tree|arg-sets|call-behaviour>` | ...
+(`alias:<alias>/functor/<check>` when clone() of the same depth passes it),
+`functor-override/<depth>/<what>`, `functor-interference/<depth>/<what changed
+on the other side>`, `functor-same-change-same-behaviour/<depth>/diverges`,
+`functor-call-time-override/<depth>/<what>`.
 """
+import base64
 import copy
 import itertools
+import zlib
 
 import pyglove as pg
 from pyvc.bounded import Recorder, rng
@@ -104,6 +128,32 @@ FRAGMENTS = [
            "W = pg.symbolize(_P)\n"),
     # Values held through references below n / a deepcopy memo that already
     # holds copies of them (and of one unrelated list, so it is never empty).
+    # Functors whose result shows every argument they were called with (a
+    # decorated function with defaults, with *args/**kwargs, with keyword-only
+    # arguments; subclassed functors, untyped and typed).
+    ('f3(', "@pg.functor()\ndef f3(a, b=1, c=2): return (a, b, c)\n"),
+    ('fv(', "@pg.functor()\ndef fv(a, b=1, *args, **kw): return (a, b, args, sorted(kw.items()))\n"),
+    ('fk(', "@pg.functor()\ndef fk(a, *, b=1, r): return (a, b, r)\n"),
+    ('Sub(', "class Sub(pg.Functor):\n  a: T.Any()\n  b: T.Any() = 1\n  c: T.Any() = 2\n"
+             "  def _call(self): return (self.a, self.b, self.c)\n"),
+    ('SubT(', "class SubT(pg.Functor):\n  a: int\n  b: int = 1\n  c: int = 2\n"
+              "  def _call(self): return (self.a, self.b, self.c)\n"),
+    # A functor that looks at its peers (its clones) while it is being called.
+    ('Peek(', "PEER = []\nclass Peek(pg.Functor):\n  x: int = 0\n"
+              "  def _call(self): return (self.x, [p.x for p in PEER])\n"),
+    # Call behaviour of a functor: the outcome (result / kind of refusal: the
+    # exception class and the words that follow the function's name in the
+    # message) of a fixed list of calls with missing, extra, overriding and
+    # call-time-flag arguments.
+    ('_beh(', "P = lambda *a, **k: (a, k)\n"
+              "_PROBES = [P(), P(7), P(7, 8), P(7, 8, 9, 6), P(a=7), P(b=8), P(r=9), P(7, r=9), P(zz=1), P(7, zz=1),\n"
+              "  P(b=8, zz=1), P(7, r=9, zz=1), P(7, override_args=True), P(zz=1, ignore_extra_args=True)]\n"
+              "def _beh(f):\n"
+              "  r = []\n"
+              "  for a, k in _PROBES:\n"
+              "    try: r.append(repr(f(*a, **k)))\n"
+              "    except Exception as e: r.append(type(e).__name__ + str(e).partition('()')[2][:12])\n"
+              "  return r\n"),
     ('_targets', "def _targets(n):\n"
                  "  if isinstance(n, pg.Ref): return [n.value]\n"
                  "  if not isinstance(n, pg.Symbolic): return []\n"
@@ -119,7 +169,8 @@ def _snap(n, k=()):
   if not isinstance(n, pg.Symbolic): return [(k, id(n), repr(n))]
   r = [(k, type(n).__name__, id(n), id(n.sym_parent), str(n.sym_path), n.is_sealed, n.allow_partial, n.accessor_writable,
         id(getattr(n, 'value_spec', None)), id(getattr(n, 'spec', None)),
-        [sorted(getattr(n, a, ())) for a in ('specified_args', 'non_default_args', 'default_args')])]
+        [sorted(getattr(n, a, ())) for a in ('specified_args', 'non_default_args', 'default_args')],
+        repr(dict(n.userdata)) if isinstance(n, (pg.DNA, pg.geno.DNASpec)) else 0)]
   if isinstance(n, pg.Ref): return r + [(k, 'ref', id(n.value))]
   for kk, v in n.sym_items(): r += _snap(v, k + (kk,))
   return r
@@ -557,6 +608,7 @@ def _diff_fields(a, b):
       return ['ref-target' if x[1] == 'ref' else 'leaf-value']
     out = [name for i, name in enumerate(_FIELDS) if x[i] != y[i]]
     out += [name for i, name in enumerate(_ARGS) if x[10][i] != y[10][i]]
+    out += ['userdata'] if x[11] != y[11] else []
     return out or ['other']
   return ['structure']
 
@@ -873,6 +925,8 @@ def mutations(root, name, depth):
       if isinstance(a, pg.DNA):
         yield t, 'write', 'set_userdata', f"{e}.set_userdata('k', 1)"
         yield t, 'write', 'set_metadata', f"{_CTX} {e}.set_metadata('k', 1)"
+      elif isinstance(a, pg.geno.DNASpec):
+        yield t, 'write', 'set_userdata', f"{e}.set_userdata('k', 1)"
 
 
 INDEP_METHODS = [('shallow', 'o.clone()'), ('deep', 'o.clone(deep=True)'),
@@ -964,7 +1018,502 @@ def drv_clone_independence(tier, seed):
   return rec.result()
 
 
-DRIVERS = [drv_clone_fidelity, drv_clone_independence]
+# --------------------------------------------------------------------------
+# Driver 3: clones of functors keep every piece of call behaviour.
+# --------------------------------------------------------------------------
+#
+# A functor carries, next to its symbolic arguments, state that decides what a
+# call does: which arguments count as specified / bound / default / non-default
+# and the two construction flags override_args / ignore_extra_args.  None of it
+# takes part in pg.eq, so "equal, same behavioural flags, no mutation of one
+# observable through the other" is checked here through calls: the clone and
+# the original, called with the same (missing, extra, overriding, call-time
+# flag) arguments, have the same outcome, before and after either is changed.
+
+_PROBES = _ENV['_PROBES']
+_beh = _ENV['_beh']
+
+_B_COMMON = ['', 'a=1', 'b=1', 'a=1, b=5', 'a=1, b=1, c=7', '1, 5', 'pg.MISSING_VALUE, 5']
+F_BINDINGS = {
+    'f3': _B_COMMON + ['a=pg.Dict(x=1), c=[pg.Dict(y=2)]'],
+    'Sub': _B_COMMON + ['a=pg.Dict(x=1), c=[pg.Dict(y=2)]'],
+    'SubT': _B_COMMON,
+    'fv': ['', '1', 'b=5', '1, 2, 3, 4', 'a=1, x=5', '1, 2, 3, x=pg.Dict(k=1)'],
+    'fk': ['', 'a=1', 'r=4', 'a=1, b=1, r=2', '1, b=5', 'b=5, r=pg.Dict(k=1)'],
+}
+# a and b bound to non-default values / nothing bound: starting points of histories.
+F_BOUND = {'f3': 'a=1, b=5', 'Sub': 'a=1, b=5', 'SubT': 'a=1, b=5', 'fv': '1, 5, 3', 'fk': 'a=1, b=5, r=2'}
+# (label, start, statements on `f` run before it is put in place and cloned)
+F_HISTORIES = [
+    ('rebound-to-non-default', 'bound', 'f.rebind(b=9)'),
+    ('rebound-to-default', 'bound', 'f.rebind(b=1)'),
+    ('unbound-by-rebind', 'bound', 'f.rebind(a=pg.MISSING_VALUE)'),
+    ('unbound-by-delattr', 'bound', 'del f.b'),
+    ('assigned', 'bound', 'f.b = 4'),
+    ('unbound-then-bound-again', 'bound', 'del f.b\nf.b = 5'),
+    ('bound-later', 'empty', 'f.rebind(a=3)'),
+    ('default-assigned-later', 'empty', 'f.b = 1'),
+    ('sealed-after', 'bound', 'f.seal()'),
+    ('rebound-then-sealed', 'bound', 'f.rebind(b=1)\nf.seal()'),
+]
+FLAG_COMBOS = list(itertools.product((False, True), repeat=2))
+# (label, statement(s) binding o (and root) from the functor `f`, navigation
+# from o / c to every functor of the value, depths for which it applies)
+F_PLACEMENTS = [
+    ('root', "o = f", [''], ('shallow', 'deep')),
+    ('in-dict', "o = pg.Dict(k=f, j=1)", [".sym_getattr('k')"], ('shallow', 'deep')),
+    ('in-list', "o = pg.List([0, f])", [".sym_getattr(1)"], ('shallow', 'deep')),
+    ('in-object', "o = A(x=f, y=[f])", [".sym_getattr('x')", ".sym_getattr('y').sym_getattr(0)"], ('shallow', 'deep')),
+    ('in-typed-dict', "o = pg.Dict(k=f, value_spec=T.Dict([('k', T.Object(pg.Functor))]))", [".sym_getattr('k')"],
+     ('shallow', 'deep')),
+    ('in-functor', "o = f3(a=f, override_args=True)", ['', ".sym_getattr('a')"], ('shallow', 'deep')),
+    ('in-subclassed-functor', "o = Sub(a=f, c=[f], ignore_extra_args=True)",
+     ['', ".sym_getattr('a')", ".sym_getattr('c').sym_getattr(0)"], ('shallow', 'deep')),
+    ('in-hyper', "o = pg.oneof([f, 1])", [".sym_getattr('candidates').sym_getattr(0)"], ('shallow', 'deep')),
+    ('picked-from-tree', "root = pg.Dict(k=f, j=1)\no = root.sym_getattr('k')", [''], ('shallow', 'deep')),
+    # Held by a non-symbolic leaf: copied by a deep clone only.
+    ('in-leaf', "o = pg.Dict(t=(f,), n=1)", [".sym_getattr('t')[0]"], ('deep',)),
+]
+F_EXPRS = [
+    ('clone', 'shallow', 'o.clone()'),
+    ('clone', 'deep', 'o.clone(deep=True)'),
+    ('copy.copy', 'shallow', 'copy.copy(o)'),
+    ('copy.deepcopy', 'deep', 'copy.deepcopy(o)'),
+    ('pg.clone', 'shallow', 'pg.clone(o)'),
+    ('pg.clone', 'deep', 'pg.clone(o, deep=True)'),
+    ('sym_clone-memo', 'deep', 'o.sym_clone(deep=True, memo={})'),
+    ('clone-empty-override', 'shallow', 'o.clone(override={})'),
+    ('clone-empty-override', 'deep', 'o.clone(deep=True, override={})'),
+    ('clone-of-clone', 'shallow', 'o.clone().clone()'),
+    ('clone-of-clone', 'deep', 'o.clone(deep=True).clone(deep=True)'),
+    ('deep-of-shallow', 'deep', 'o.clone().clone(deep=True)'),
+    ('shallow-of-deep', 'shallow', 'o.clone(deep=True).clone()'),
+    ('copy.deepcopy-in-list', 'deep', 'copy.deepcopy([o])[0]'),
+    ('pg.clone-in-dict', 'shallow', "pg.clone({'k': o})['k']"),
+]
+# A value that has a parent is copied when it is put into another tree.
+F_IMPLICIT = ('implicit-copy-on-reparent', 'shallow', "pg.Dict(h=o).sym_getattr('h')")
+# (label, argument, new value): clone(override={<path to the functor>.<argument>: value})
+F_OVERRIDES = [('non-default', 'b', '9'), ('default', 'b', '1'), ('required', 'a', '6')]
+# Later changes of one side (e is the functor).
+F_MUTATIONS = [
+    ('rebind-non-default', "{e}.rebind(b=8)"),
+    ('rebind-default', "{e}.rebind(b=1, raise_on_no_change=False)"),
+    ('unbind', "{e}.rebind(a=pg.MISSING_VALUE, raise_on_no_change=False)"),
+    ('bind', "{e}.rebind(a=6)"),
+    ('delattr', "del {e}.b"),
+    ('setattr', "{e}.b = 4"),
+]
+_ARG_SETS = ('specified_args', 'non_default_args', 'default_args', 'bound_args', 'unbound_args', 'is_fully_bound')
+
+
+def _fwit(subject_src, lines, snap=False):
+  """_wit without what the functor subjects never need.
+
+  The recorder keeps 1200 characters of a witness: a longer one is handed over
+  packed (still a self-contained runnable snippet) rather than cut in two.
+  """
+  w = _wit(subject_src, lines, snap).replace('import threading\n', '', 1)
+  if 'copy.' not in w:
+    w = w.replace('import copy\n', '', 1)
+  if len(w) > 1190:
+    packed = base64.b64encode(zlib.compress(w.encode(), 9)).decode()
+    w = f"import base64, zlib\nexec(zlib.decompress(base64.b64decode('{packed}')).decode())\n"
+  return w
+
+
+def _fsrc(kind, binding, ov, ig, history='', placement="o = f"):
+  args = [x for x in (binding, 'override_args=True' if ov else '', 'ignore_extra_args=True' if ig else '') if x]
+  return f"f = {kind}({', '.join(args)})\n" + (history + '\n' if history else '') + placement
+
+
+def _probe_family(fo, probe):
+  """Names the class of a call relative to the functor it is made on."""
+  args, kwargs = probe
+  if 'override_args' in kwargs or 'ignore_extra_args' in kwargs:
+    return 'call-time-flags'
+  sig = fo.__signature__
+  names = [a.name for a in sig.args]
+  known = set(names) | {a.name for a in sig.kwonlyargs}
+  if (len(args) > len(names) and not sig.varargs) or (not sig.varkw and set(kwargs) - known):
+    return 'surplus-arguments'
+  touched = set(names[:len(args)]) | set(kwargs)
+  if touched & set(fo.specified_args):
+    return 'override-bound-argument'
+  return 'bind-unbound-argument' if touched else 'no-arguments'
+
+
+def _fstate(f):
+  return _beh(f), [sorted(v) if isinstance(v, set) else v for v in (getattr(f, a) for a in _ARG_SETS)]
+
+
+def _sym_ids(v, out, depth=0):
+  if isinstance(v, Symbolic):
+    for kind, _, a, _ in _pairs(v, v):
+      if kind == 'node':
+        out.add(id(a))
+      else:
+        _sym_ids(a, out, depth + 1)
+  elif isinstance(v, (tuple, list)) and depth < 6:
+    for x in v:
+      _sym_ids(x, out, depth + 1)
+  elif isinstance(v, dict) and depth < 6:
+    for x in v.values():
+      _sym_ids(x, out, depth + 1)
+  return out
+
+
+def _unchanged(snap, states, snap2, states2, navs, side, rootname):
+  """('' | what differs, message, (lines before, lines after, needs _snap)) for a side that must not change."""
+  if snap != snap2:
+    return 'tree', _diff(snap, snap2), ([f'b = _snap({rootname})'], [f'assert _snap({rootname}) == b'], True)
+  for nav, x, y in zip(navs, states, states2):
+    if x[1] != y[1]:
+      return ('arg-sets', f'{side}{nav}: {x[1]} became {y[1]}',
+              ([f'fx = {side}{nav}', f'b = [sorted(getattr(fx, a)) for a in {_ARG_SETS[:5]}]'],
+               [f'assert [sorted(getattr(fx, a)) for a in {_ARG_SETS[:5]}] == b'], False))
+    if x[0] != y[0]:
+      return ('call-behaviour', f'{side}{nav}: {[(p, u, v) for p, u, v in zip(_PROBES, x[0], y[0]) if u != v]}',
+              ([f'fx = {side}{nav}', 'b = _beh(fx)'],
+               ['assert _beh(fx) == b, [(p, u, v) for p, u, v in zip(_PROBES, b, _beh(fx)) if u != v]'], False))
+  return '', '', ([], [], False)
+
+
+def _functor_checks(env, navs, ostates):
+  """Compares every functor of env['c'] with its counterpart in env['o'].
+
+  ostates: _fstate of the original's functors (after cloning), one per nav.
+  Returns [(check, message, assert_src)]; one entry per check.
+  """
+  out = {}
+
+  def add(chk, msg, a):
+    out.setdefault(chk, (chk, msg, a))
+
+  own = _sym_ids(env['o'], set())
+  for nav, ostate in zip(navs, ostates):
+    try:
+      _exec(f'fo = o{nav}\nfc = c{nav}', env)
+    except Exception as e:  # pylint: disable=broad-except
+      add('structure', f'c{nav} raised {type(e).__name__}: {e}', f'c{nav}')
+      continue
+    fo, fc = env['fo'], env['fc']
+    pre = f'fo, fc = o{nav}, c{nav}\n'
+    if type(fo) is not type(fc) or not isinstance(fc, pg.Functor):
+      add('class', f'c{nav} is a {type(fc).__name__}, original {type(fo).__name__}', pre + 'assert type(fc) is type(fo)')
+      continue
+    if fc is fo:
+      add('shared-functor', f'c{nav} is the functor of the original', pre + 'assert fc is not fo')
+      continue
+    for a in _ARG_SETS:
+      va, vb = getattr(fo, a), getattr(fc, a)
+      if va != vb:
+        add(f'arg-sets.{a}', f'c{nav}.{a} is {vb}, original has {va}', pre + f'assert fc.{a} == fo.{a}, (fc.{a}, fo.{a})')
+      elif isinstance(va, set) and va is vb:
+        add('arg-sets.shared-set-object', f'c{nav}.{a} is the very set object of the original',
+            pre + f'assert fc.{a} is not fo.{a}')
+    bo, bc = ostate[0], _beh(fc)
+    for probe, x, y in zip(_PROBES, bo, bc):
+      if x != y:
+        add(f'call.{_probe_family(fo, probe)}',
+            f'c{nav}(*{probe[0]}, **{probe[1]}) gives {y}, the original {x}',
+            pre + 'assert _beh(fc) == _beh(fo), [(p, x, y) for p, x, y in zip(_PROBES, _beh(fo), _beh(fc)) if x != y]')
+    # What a call of the clone returns is made of the clone's own nodes.
+    got = set()
+    for args in ((), (7,)):
+      try:
+        _sym_ids(fc(*args), got)
+      except Exception:  # pylint: disable=broad-except
+        pass
+    if got & own:
+      add('call.returns-node-of-original', f'a call of c{nav} returns a symbolic node of the original',
+          pre + 'ids = {i[2] for i in _snap(o) if len(i) > 4}\n'
+          'for a in ((), (7,)):\n  try: r = fc(*a)\n  except Exception: continue\n'
+          '  assert not [x for x in r if isinstance(x, pg.Symbolic) and id(x) in ids]')
+  return list(out.values())
+
+
+def _functor_subject(rec, label, src, navs, exprs, key, cache):
+  """Clones one subject in every way of `exprs`; returns nothing."""
+  try:
+    build(src)
+  except Exception as e:  # pylint: disable=broad-except
+    rec.case('functor/subject-construction-raises', key, False,
+             f'[{label}] {src!r} raised {type(e).__name__}: {e}', _fwit(src, []))
+    return
+
+  def run(depth, expr):
+    """Returns the failed checks [(check, message, witness)] of one clone."""
+    env = build(src)
+    root = _root_of(env)
+    # What the original does before it is cloned: the same for every build of
+    # the same source.
+    before = cache.get(('before', src))
+    if before is None:
+      before = cache[('before', src)] = [_fstate(eval('o' + nav, env)) for nav in navs]  # pylint: disable=eval-used
+    snap = _snap(root)
+    stmt = f'c = {expr}'
+    try:
+      _exec(stmt, env)
+    except Exception as e:  # pylint: disable=broad-except
+      return [('raises', f'{expr} raised {type(e).__name__}: {e}', _fwit(src, [stmt]))]
+    fails = []
+    after = [_fstate(eval('o' + nav, env)) for nav in navs]  # pylint: disable=eval-used
+    snap2 = _snap(root)
+    what, msg, (pre, post, sn) = _unchanged(snap, before, snap2, after, navs, 'o', 'root' if 'root' in env else 'o')
+    if what:
+      fails.append((f'modifies-original.{what}', f'{expr} changed the original: {msg}',
+                    _fwit(src, pre + [stmt] + post, snap=sn)))
+    for chk, msg, a in _functor_checks(env, navs, after):
+      fails.append((chk, f'{expr}: {msg}', _fwit(src, [stmt, a], snap='_snap' in a)))
+    return fails
+
+  def base_of(depth):
+    base = cache.get((src, depth))
+    if base is None:
+      base = cache[(src, depth)] = run(depth, dict(BASES)[depth])
+      for chk, msg, w in base:
+        rec.case(f'functor/{depth}/{chk}', key + ('clone', depth), False, f'[{label}] {msg}', w)
+      if not base:
+        rec.case(f'functor/{depth}', key + ('clone', depth), True)
+    return base
+
+  for alias, depth, expr in exprs:
+    if alias == 'clone':
+      base_of(depth)
+      continue
+    fails = run(depth, expr)
+    if fails:
+      # Only what holds for clone() of the same depth is put down to the alias.
+      base_checks = {chk for chk, _, _ in base_of(depth)}
+      fails = [f for f in fails if f[0] not in base_checks]
+    for chk, msg, w in fails:
+      rec.case(f'alias:{alias}/functor/{chk}', key + (alias, depth), False, f'[{label}] {msg}', w)
+    if not fails:
+      rec.case(f'alias:{alias}/functor', key + (alias, depth), True)
+
+
+def _functor_override(rec, label, src, navs, key, overrides=None):
+  """clone(override=...) of a functor's argument == the same rebind on the original."""
+  for olabel, arg, val in overrides or F_OVERRIDES:
+    for nav in navs:
+      path = ''.join(f'[{k}]' if isinstance(k, int) else (f'.{k}' if i else k)
+                     for i, k in enumerate(_nav_keys(nav) + [arg]))
+      for depth, how in (('shallow', f'o.clone(override={{{path!r}: {val}}})'),
+                         ('deep', f'o.clone(deep=True, override={{{path!r}: {val}}})'),
+                         ('deep', f'pg.clone(o, deep=True, override={{{path!r}: {val}}})')):
+        k2 = key + (olabel, nav, how)
+        env = build(src)
+        ref = build(src)
+        if _apply(ref, f'o.rebind({{{path!r}: {val}}}, raise_on_no_change=False)') is not None:
+          continue   # the change itself is refused: nothing to compare with
+        if env['o'].is_sealed:
+          continue   # a sealed original may refuse an override of its clone (see _override_cases)
+        before = _snap(_root_of(env)), [_fstate(eval('o' + n, env)) for n in navs]  # pylint: disable=eval-used
+        stmt = f'c = {how}'
+        exc = _apply(env, stmt)
+        if exc is not None:
+          rec.case(f'functor-override/{depth}/raises', k2, False,
+                   f'[{label}] {how} raised {type(exc).__name__}: {exc}', _fwit(src, [stmt]))
+          continue
+        after = _snap(_root_of(env)), [_fstate(eval('o' + n, env)) for n in navs]  # pylint: disable=eval-used
+        what, msg, (pre, post, sn) = _unchanged(before[0], before[1], after[0], after[1], navs, 'o',
+                                                'root' if 'root' in env else 'o')
+        rec.case(f'functor-override/{depth}/modifies-original' + (f'.{what}' if what else ''), k2, not what,
+                 f'[{label}] {how} changed the original: {msg}', _fwit(src, pre + [stmt] + post, snap=sn))
+        try:
+          want, got = _fstate(eval('o' + nav, ref)), _fstate(eval('c' + nav, env))  # pylint: disable=eval-used
+        except Exception as e:  # pylint: disable=broad-except
+          rec.case(f'functor-override/{depth}/structure', k2, False,
+                   f'[{label}] {how}: c{nav} raised {type(e).__name__}: {e}', _fwit(src, [stmt, f'c{nav}']))
+          continue
+        what = 'call-behaviour' if want[0] != got[0] else 'arg-sets'
+        rec.case(f'functor-override/{depth}' + ('' if want == got else f'/{what}-differs-from-rebound-original'), k2,
+                 want == got,
+                 f'[{label}] {how}: c{nav} behaves {got}, the original after the same rebind {want}',
+                 # (the original is built anew for the comparison)
+                 _fwit(f"SRC = '''{src}'''\nexec(SRC)", [stmt, f'fc = c{nav}', 'exec(SRC)',
+                            f'o.rebind({{{path!r}: {val}}}, raise_on_no_change=False)', f'fo = o{nav}',
+                            'S = lambda f: (_beh(f), f.specified_args, f.default_args, f.non_default_args)',
+                            'assert S(fc) == S(fo), (S(fc), S(fo))']))
+
+
+def _nav_keys(nav):
+  """['k', 0] for ".sym_getattr('k').sym_getattr(0)"."""
+  return [eval(x[:-1]) for x in nav.split('.sym_getattr(')[1:]]  # pylint: disable=eval-used
+
+
+def _guarded(stmt, exc):
+  return f'try:\n  {stmt}\nexcept Exception: pass' if exc else stmt
+
+
+def _in_ctx(sealed, stmts):
+  """Sealed values are changed inside the scopes that permit it."""
+  return [_CTX] + ['  ' + x.replace('\n', '\n  ') for x in stmts] if sealed else stmts
+
+
+def _functor_independence(rec, label, src, navs, depth, expr, muts, key):
+  for mlabel, tmpl in muts:
+    for nav in navs:
+      for side, other in (('o', 'c'), ('c', 'o')):
+        bind = f'fo, fc = o{nav}, c{nav}'
+        try:
+          env = build(src, expr)
+          _exec(bind, env)
+        except Exception:  # pylint: disable=broad-except
+          return   # reported by the fidelity part
+        sealed = env['fo'].is_sealed or env['fc'].is_sealed
+        stmt = tmpl.format(e='f' + side)
+        k2 = key + (expr, mlabel, nav, side)
+        oroot = _root_of(env) if other == 'o' else env['c']
+        oname = ('root' if 'root' in env else 'o') if other == 'o' else 'c'
+        before = _snap(oroot), [_fstate(eval(other + n, env)) for n in navs]  # pylint: disable=eval-used
+        faithful = _fstate(env['f' + side]) == before[1][navs.index(nav)]
+        exc = _apply(env, '\n'.join(_in_ctx(sealed, [stmt])))
+        after = _snap(oroot), [_fstate(eval(other + n, env)) for n in navs]  # pylint: disable=eval-used
+        what, msg, (pre, post, sn) = _unchanged(before[0], before[1], after[0], after[1], navs, other, oname)
+        rec.case(f'functor-interference/{depth}/{what}' if what else f'functor-independence/{depth}', k2, not what,
+                 f'[{label}] c = {expr}; {bind}; `{stmt}` changed the {"original" if other == "o" else "clone"}: {msg}',
+                 _fwit(src, [f'c = {expr}', bind] + pre + _in_ctx(sealed, [_guarded(stmt, exc)]) + post, snap=sn),
+                 nontrivial=exc is None)
+        if side != 'c' or not faithful:
+          continue   # a clone that differs already is reported by the fidelity part
+        # The clone, changed the way the original is changed, still behaves like it.
+        twin = build(src, expr)
+        _exec(bind, twin)
+        stmt2 = tmpl.format(e='fo')
+        texc = _apply(twin, '\n'.join(_in_ctx(sealed, [stmt2])))
+        got = (type(exc).__name__, _fstate(env['fc']))
+        want = (type(texc).__name__, _fstate(twin['fo']))
+        rec.case(f'functor-same-change-same-behaviour/{depth}' + ('' if got == want else '/diverges'), k2, got == want,
+                 f'[{label}] c = {expr}; {bind}; after `{stmt}` the clone behaves {got}; the original after the same '
+                 f'change {want}',
+                 _fwit(src, [f'c = {expr}', bind] + _in_ctx(sealed, [_guarded(stmt, exc), _guarded(stmt2, texc)])
+                       + ['assert (_beh(fc), fc.specified_args) == (_beh(fo), fo.specified_args)']))
+
+
+def _functor_peers(rec):
+  """A call-time override of one side is not visible through the other."""
+  for depth, expr in BASES + [('shallow', 'copy.copy(o)'), ('deep', 'copy.deepcopy(o)')]:
+    for place, navs in (("o = Peek(x=1, override_args=True)", ''),
+                        ("o = pg.Dict(k=Peek(x=1, override_args=True))", ".sym_getattr('k')")):
+      for caller, peer in (('o', 'c'), ('c', 'o')):
+        env = build(place, expr)
+        body = [f'c = {expr}', f'PEER[:] = [{peer}{navs}]', f'r = {caller}{navs}(5)', 'PEER[:] = []']
+        exc = None
+        for line in body[1:]:
+          exc = exc or _apply(env, line)
+        _apply(env, 'PEER[:] = []')
+        ok = exc is None and env.get('r') == (5, [1])
+        rec.case(f'functor-call-time-override/{depth}'
+                 + ('' if ok else '/call-raises' if exc else '/visible-through-the-other-side'),
+                 (place, expr, caller), ok,
+                 f'{place}; c = {expr}; PEER = [{peer}{navs}]; {caller}{navs}(5) '
+                 + (f'raised {type(exc).__name__}: {exc}' if exc else f'returned {env.get("r")!r}, want (5, [1])'),
+                 _fwit(place, body + ['assert r == (5, [1]), r']))
+
+
+def drv_clone_functor_calls(tier, seed):
+  quick = tier == 'quick'
+  kinds = [(k, b) for k, bs in F_BINDINGS.items() for b in bs]
+  rec = Recorder(
+      'C07', 'clones of functors keep every piece of call behaviour',
+      scope=f'{len(F_BINDINGS)} functor classes (decorated functions with defaults / varargs+varkw / keyword-only '
+            f'arguments, subclassed functors untyped / typed) x {len(kinds)} argument bindings x override_args / '
+            f'ignore_extra_args in all 4 combinations, {len(F_HISTORIES)} histories before cloning (rebind, '
+            f'unbind, delattr, assignment, seal), {len(F_PLACEMENTS)} placements (stand-alone, in Dict / List / '
+            'Object / typed Dict / functor argument / hyper candidate / picked out of a tree / inside a tuple leaf) '
+            f'x {len(F_EXPRS)} clone expressions (clone, copy.copy, copy.deepcopy, pg.clone, memo, empty override, '
+            'clones of clones, through plain containers, implicit copy on re-parenting); per clone: argument sets '
+            f'equal and fresh, {len(_PROBES)} calls (missing / surplus / overriding / call-time-flag arguments) with '
+            'the same outcome on both sides, original unchanged; clone(override=argument) against the rebound '
+            f'original; {len(F_MUTATIONS)} later changes of either side not visible through the other, and the '
+            'changed clone behaves like the original changed the same way'
+            + ('; quick: all bindings x flags stand-alone x 4 clone expressions; every flags x placement x '
+               'expression once and every class x history x flags once (other dimensions rotating); overrides and '
+               'later changes on a rotating selection' if quick else
+               '; all classes x bindings and histories x flags x placements x the four basic clone expressions, '
+               'every expression stand-alone and for every third placement; overrides and three of the later '
+               'changes for every fourth placement'))
+  r = rng(seed, 'c07-functor')
+  cache = {}
+  main4 = F_EXPRS[:4]
+
+  def exprs_for(place, exprs):
+    label, _, _, depths = place
+    out = [x for x in exprs if x[1] in depths]
+    if label == 'picked-from-tree' and exprs is not main4:
+      out.append(F_IMPLICIT)
+    return out
+
+  if quick:
+    i = r.randint(0, 11)
+    # (a) every binding x flags, stand-alone, the four basic clone expressions.
+    for kind, binding in kinds:
+      for ov, ig in FLAG_COMBOS:
+        src = _fsrc(kind, binding, ov, ig)
+        _functor_subject(rec, f'{kind}({binding})', src, [''], main4, (kind, binding, ov, ig, 'root', ''), cache)
+    # (b) every placement x expression, flags rotating so that every placement
+    # and every expression meets all four combinations; class / binding rotate.
+    for pi, place in enumerate(F_PLACEMENTS):
+      for ei, x in enumerate(exprs_for(place, F_EXPRS)):
+        ov, ig = FLAG_COMBOS[(pi + ei + i) % 4]
+        kind, binding = kinds[i % len(kinds)]
+        i += 3
+        src = _fsrc(kind, binding, ov, ig, '', place[1])
+        _functor_subject(rec, f'{kind}({binding}) {place[0]}', src, place[2], [x],
+                         (kind, binding, ov, ig, place[0], ''), cache)
+    # (c) every class x history; flags and placement rotate.
+    for ki, kind in enumerate(F_BINDINGS):
+      for hi, (hlabel, start, hist) in enumerate(F_HISTORIES):
+        ov, ig = FLAG_COMBOS[(ki + hi + i) % 4]
+        place = F_PLACEMENTS[(2 * ki + hi + i) % len(F_PLACEMENTS)]
+        binding = F_BOUND[kind] if start == 'bound' else ''
+        src = _fsrc(kind, binding, ov, ig, hist, place[1])
+        xs = exprs_for(place, main4)
+        _functor_subject(rec, f'{kind}({binding}) {hlabel} {place[0]}', src, place[2],
+                         [xs[(ki + hi) % len(xs)], xs[(ki + hi + 1) % len(xs)]],
+                         (kind, binding, ov, ig, place[0], hlabel), cache)
+    # (d) overrides and later changes: every binding, the rest rotating.
+    for bi, (kind, binding) in enumerate(kinds):
+      ov, ig = FLAG_COMBOS[(bi + i) % 4]
+      place = F_PLACEMENTS[(bi + i) % (len(F_PLACEMENTS) - 1)]   # not inside a leaf
+      src = _fsrc(kind, binding, ov, ig, '', place[1])
+      key = (kind, binding, ov, ig, place[0])
+      _functor_override(rec, f'{kind}({binding}) {place[0]}', src, place[2][-1:], key,
+                        [F_OVERRIDES[(bi + i) % len(F_OVERRIDES)]])
+      depth, expr = BASES[(bi + i) // 2 % 2]
+      muts = [F_MUTATIONS[(bi + i + j) % len(F_MUTATIONS)] for j in (0, 3)]
+      _functor_independence(rec, f'{kind}({binding}) {place[0]}', src, place[2][-1:], depth, expr, muts, key)
+  else:
+    hists = [('', None, '')] + F_HISTORIES
+    i = r.randint(0, 11)
+    for kind, bs in F_BINDINGS.items():
+      for hlabel, start, hist in hists:
+        for binding in (bs if start is None else [F_BOUND[kind] if start == 'bound' else '']):
+          for ov, ig in FLAG_COMBOS:
+            for pi, place in enumerate(F_PLACEMENTS):
+              i += 1
+              src = _fsrc(kind, binding, ov, ig, hist, place[1])
+              key = (kind, binding, ov, ig, place[0], hlabel)
+              label = f'{kind}({binding}) {hlabel} {place[0]}'
+              # Every clone expression stand-alone and for every third
+              # placement, the four basic ones elsewhere.
+              every = pi == 0 or (pi + i // len(F_PLACEMENTS)) % 3 == 0
+              _functor_subject(rec, label, src, place[2], exprs_for(place, F_EXPRS if every else main4), key, cache)
+              cache.clear()
+              # Overrides and later changes: every fourth placement.
+              if place[0] == 'in-leaf' or (pi + i // len(F_PLACEMENTS)) % 4:
+                continue
+              _functor_override(rec, label, src, place[2][-1:], key)
+              for j, (depth, expr) in enumerate(BASES if i % 2 else INDEP_METHODS[2:]):
+                muts = [F_MUTATIONS[(i + j + m) % len(F_MUTATIONS)] for m in (0, 2, 4)]
+                _functor_independence(rec, label, src, place[2][-1:], depth, expr, muts, key)
+  _functor_peers(rec)
+  return rec.result()
+
+
+DRIVERS = [drv_clone_fidelity, drv_clone_independence, drv_clone_functor_calls]
 
 
 def replay(rec):
